@@ -7,7 +7,8 @@
    ([SPeriodic], the [PPer] payload = the [periodic] closure, [SPCancel] =
    disposing the returned disposable), specification in Core/Periodic.v; tied to
    the code by the K1 correspondence of harness/props/C35.py. *)
-From RxVerif Require Import Base.Prelude Core.VTime Core.VTimeFacts Core.Periodic Core.PeriodicFacts.
+From RxVerif Require Import Base.Prelude Core.VTime Core.VTimeFacts Core.Periodic Core.PeriodicFacts Core.IntervalEmits.
+From RxVerif Require Core.NTPeriodicQuiet.
 From RxVerif Require Core.NewThreadPeriodic Core.NewThreadPeriodicFacts.
 Module NTP := RxVerif.Core.NewThreadPeriodic.
 From RxVerif Require Core.PeriodicRT.
@@ -86,6 +87,39 @@ Theorem C35_stop_disposes : forall s pid st pi,
 Proof. exact periodic_stop_disposes. Qed.
 Print Assumptions C35_stop_disposes.
 
+(* interval(p) / timer(p, p): schedule_periodic(p, count -> on_next(count); count + 1, 0).
+   For every period p >= 0, every bound m, target t and table size n: the k-th call
+   (k = 0, 1, .., n), if it is made, carries k and is made at c0 + (k+1)*p ... *)
+Theorem C35_interval_emits : forall n m p c0 t k stk, 0 <= p -> (k <= n)%nat ->
+  nth_error (solo_spec (count_table n) p m c0 (c0 + p) 0 t) k = Some stk ->
+  stk = (Z.of_nat k, c0 + (Z.of_nat k + 1) * p).
+Proof. exact interval_emits. Qed.
+Print Assumptions C35_interval_emits.
+
+(* ... and it IS made whenever c0 + (k+1)*p <= t *)
+Theorem C35_interval_has_kth : forall n m p c0 t k, 0 <= p -> (k <= n)%nat -> (k < m)%nat ->
+  c0 + (Z.of_nat k + 1) * p <= t ->
+  nth_error (solo_spec (count_table n) p m c0 (c0 + p) 0 t) k
+  = Some (Z.of_nat k, c0 + (Z.of_nat k + 1) * p).
+Proof. exact interval_has_kth. Qed.
+Print Assumptions C35_interval_has_kth.
+
+(* the same composed with C35_calls, on the machine: interval(p) subscribed on a fresh
+   scheduler at clock c0, then advance_to(t) *)
+Theorem C35_interval_run_kth : forall c fuel n p c0 t k stk, 0 <= p -> c0 < t -> (k <= n)%nat ->
+  nth_error (rev (ticks_of 0 (log (state_of (run c fuel (init c0) (solo_history p (count_table n) 0 t)))))) k
+    = Some stk ->
+  stk = (Z.of_nat k, c0 + (Z.of_nat k + 1) * p).
+Proof. exact interval_run_kth. Qed.
+Print Assumptions C35_interval_run_kth.
+
+Theorem C35_interval_run_has_kth : forall c fuel n p c0 t k, 0 <= p -> c0 < t -> (k <= n)%nat ->
+  (k < fuel)%nat -> c0 + (Z.of_nat k + 1) * p <= t ->
+  nth_error (rev (ticks_of 0 (log (state_of (run c fuel (init c0) (solo_history p (count_table n) 0 t)))))) k
+    = Some (Z.of_nat k, c0 + (Z.of_nat k + 1) * p).
+Proof. exact interval_run_has_kth. Qed.
+Print Assumptions C35_interval_run_has_kth.
+
 (* ---- witnesses ------------------------------------------------------ *)
 
 (* interval(3) subscribed at clock 200: 0,1,2,... at 203, 206, ... *)
@@ -132,6 +166,12 @@ Qed.
 (* the hypotheses of C35_calls / C35_calls_complete are satisfiable *)
 Example C35_witness_hyps : 0 <= 3 /\ 200 < 215 /\ (Z.to_nat ((215 - 203) / 3 + 1) <= 10)%nat.
 Proof. split; [lia | split; [lia | vm_compute; lia]]. Qed.
+
+(* the hypotheses of C35_interval_run_has_kth hold for the run of C35_witness_interval
+   (fifth tick, k = 4: state 4 at 215) *)
+Example C35_witness_interval_hyps :
+  0 <= 3 /\ 200 < 215 /\ (4 <= 8)%nat /\ (4 < 10)%nat /\ 200 + (Z.of_nat 4 + 1) * 3 <= 215.
+Proof. vm_compute. repeat split; try lia; discriminate. Qed.
 
 (* ===== NewThreadScheduler.schedule_periodic: the loop on its dedicated thread =====
 
@@ -249,6 +289,21 @@ Theorem C35_nt_first_call : forall (T : Type) p (f : T -> T) st0 c0 d0 sc c x,
   c = c0 + Z.max 0 p /\ c0 + p <= c /\ x = st0.
 Proof. exact (@NTPF.periodic_first). Qed.
 Print Assumptions C35_nt_first_call.
+
+(* (e) the loop really invokes: when nobody disposes and no invocation raises (any
+   durations, any period, any action), there is one invocation per iteration and the
+   loop is still running; with C35_nt_kth_call this names the k-th invocation *)
+Theorem C35_nt_quiet_runs : forall (T : Type) p (f : T -> T) st0 c0 durs,
+  length (NTP.invs (fst (NTP.periodic p f st0 c0 false (map NTP.quiet durs)))) = length durs /\
+  snd (NTP.periodic p f st0 c0 false (map NTP.quiet durs)) = NTP.Running.
+Proof. exact (@NTPeriodicQuiet.periodic_quiet_runs). Qed.
+Print Assumptions C35_nt_quiet_runs.
+
+Theorem C35_nt_quiet_kth : forall (T : Type) p (f : T -> T) st0 c0 durs k, (k < length durs)%nat ->
+  nth_error (NTP.invs (fst (NTP.periodic p f st0 c0 false (map NTP.quiet durs)))) k
+  = Some (c0 + Z.max 0 p + NTP.gaps p (map NTP.quiet durs) k, Nat.iter k f st0).
+Proof. exact (@NTPeriodicQuiet.periodic_quiet_kth). Qed.
+Print Assumptions C35_nt_quiet_kth.
 
 (* ---- witnesses (new-thread loop) ------------------------------------------ *)
 
